@@ -38,12 +38,18 @@ type Scenario struct {
 	CRLRoute     string // fetcher | http
 	Cache        string // "" | healthy | get-fault | set-fault
 	Discard      bool
+	// ClientTimeoutMs > 0 gives the HTTP client a (short, real) timeout so that
+	// a responder that never answers ends in a genuine client timeout.
+	ClientTimeoutMs int
 }
 
 // Desc is a compact descriptor for hashing / samples.
 func (sc *Scenario) Desc() string {
 	var b strings.Builder
 	fmt.Fprintf(&b, "len=%d ca=%s ts=%v st=%v entry=%s route=%s cache=%s discard=%v", sc.Len, sc.CAKind, sc.Timestamping, sc.WithST, sc.Entry, sc.CRLRoute, sc.Cache, sc.Discard)
+	if sc.ClientTimeoutMs > 0 {
+		fmt.Fprintf(&b, " client-timeout=%dms", sc.ClientTimeoutMs)
+	}
 	for i, p := range sc.Plans {
 		fmt.Fprintf(&b, " | c%d o=%v/%v d=%v/%v", i, p.Shape.OCSP, p.OCSP, p.Shape.CRL, p.CRL)
 		if p.Shape.Freshest {
@@ -190,6 +196,9 @@ func (env *Env) Run(ctx context.Context) *Outcome {
 	sc := env.Sc
 	out := &Outcome{Chain: env.Chain}
 	client := env.Net.Client()
+	if sc.ClientTimeoutMs > 0 {
+		client.Timeout = time.Duration(sc.ClientTimeoutMs) * time.Millisecond
+	}
 	var st time.Time
 	if sc.WithST {
 		st = SigningTime
